@@ -3,12 +3,20 @@
 import json, glob, os
 VERIF = os.path.dirname(os.path.dirname(os.path.abspath(__file__)))
 rows = []
+benign = []
 for d in sorted(glob.glob(os.path.join(VERIF, "seeded", "*"))):
     try:
         m = json.load(open(os.path.join(d, "meta.json")))
     except Exception:
         continue
     name = os.path.basename(d)
+    if name.startswith("benign-"):
+        fa = m.get("false_alarms") or []
+        rd = os.path.join(d, "README.txt")
+        summ = open(rd).read().replace("\n", " ").replace("|", "/")[:260] if os.path.exists(rd) else ""
+        benign.append("| %s | %s | %s | %s |" % (name, ", ".join(m.get("files", [])), ", ".join(sorted(m.get("checks", {}))),
+                                              ("**FALSE ALARM: " + ", ".join(fa) + "**") if fa else ("no alarm" if not m.get("error") else m["error"][:80])))
+        continue
     checks = m.get("my_checks") or {}
     if isinstance(checks, dict):
         caught = [c for c, v in checks.items() if isinstance(v, dict) and v.get("exit") == 1]
@@ -28,4 +36,9 @@ with open(os.path.join(VERIF, "SEEDED.md"), "w") as f:
             "`bin/seedtest.py` in a scratch worktree). `patch.diff`, the demonstration and `meta.json` are under `seeded/<id>/`.\n\n"
             "| id | change | needs | caught by (quick) | how |\n|---|---|---|---|---|\n")
     f.write("\n".join(rows) + "\n")
+    f.write("\n## Behaviour-preserving refactors (must NOT raise an alarm)\n\n"
+            "Written by a sub-agent asked for harmless rewrites of the anchored code; each was applied to /repo and the quick\n"
+            "checks of every property anchored in the touched packages were run (`bin/benigntest.py`).\n\n"
+            "| id | files | checks run | verdict |\n|---|---|---|---|\n")
+    f.write("\n".join(benign) + "\n")
 print(len(rows), "rows")
